@@ -470,7 +470,8 @@ M("C13-label-setter-refresh-first", {"C13": "C13.R2"}, (_MS, "            self._
 M("C13-refresh-skips-last-cluster", {"C13": "C13.R2"}, (_MS, "            for cluster_id in range(self.arguments.num_clusters):\n                this_cluster_members", "            for cluster_id in range(self.arguments.num_clusters - 1):\n                this_cluster_members"))
 M("C13-refresh-bucket-shifted", {"C13": "C13.R2"}, (_MS, "                this_cluster_members = members[cluster_id]\n", "                this_cluster_members = members[cluster_id + 1]\n"))
 M("C13-direct-private-write", {"C13": "C13.R1"}, (_K, "    new_model.point_labels = new_labels\n", "    new_model._point_labels = new_labels\n"))
-M("C13-state-ctor-elsewhere", {"C13": "C13.R1"}, (_K, "    new_model = model.shallow_copy()\n    new_model.clusters = [cluster.deep_copy() for cluster in new_model.clusters]\n    new_model.point_labels = new_labels", "    new_model = model_state.ModelState(arguments=model.arguments, clusters=[cluster.deep_copy() for cluster in model.clusters],\n                                       point_labels=None, stacked_training_data=model.stacked_training_data)\n    new_model.point_labels = new_labels"))
+# (was expected to be a violation of a who-may-construct census; it is not: the state starts unlabelled with its own deep copies)
+M("C13-twin-state-ctor-elsewhere", {"C13": None}, (_K, "    new_model = model.shallow_copy()\n    new_model.clusters = [cluster.deep_copy() for cluster in new_model.clusters]\n    new_model.point_labels = new_labels", "    new_model = model_state.ModelState(arguments=model.arguments, clusters=[cluster.deep_copy() for cluster in model.clusters],\n                                       point_labels=None, stacked_training_data=model.stacked_training_data)\n    new_model.point_labels = new_labels"))
 M("C13-edit-labels-in-place", {"C13": ["C13.R3", "C13.R6"], "C08": "C08.R5"}, (_CMf, "    new_point_labels = list(model.point_labels)", "    new_point_labels = model.point_labels"))
 M("C13-edit-after-publication", {"C13": "C13.R3"}, (_CMf, "        new_model.point_labels = updated_point_labels\n", "        new_model.point_labels = updated_point_labels\n        updated_point_labels[0] = updated_point_labels[0]\n"))
 M("C13-sort-members-in-place", {"C13": ["C13.R3", "C13.R6"]}, (_CMf, "    training_data_this_cluster = training_data[cluster.member_points, :]\n\n    updated_cluster.empirical_covariance", "    cluster.member_points.sort()\n    training_data_this_cluster = training_data[cluster.member_points, :]\n\n    updated_cluster.empirical_covariance"))
